@@ -38,6 +38,28 @@ Theorem C19_alias_value_preserved :
 Proof. exact (fun T W => verify_alias_full T (wf_table_WF T W)). Qed.
 Print Assumptions C19_alias_value_preserved.
 
+(* ... at the level of whole descriptions: the deprecated spelling and the current spelling
+   normalise to the same description.  For every description d that passes the type pass
+   (d1 its type-normalised form) and every twin t of it -- t uses no deprecated name and
+   every other attribute has the value the alias mapping gives it, i.e. the replacement of
+   a set deprecated name holds its converted value -- verify t and verify d raise the same
+   exception, or both accept and agree on every attribute except the deprecated names
+   themselves (unset in both).  This covers the derived use_mpi flag: wf_table demands
+   that the generated table has the use_mpi block after every alias block. *)
+Theorem C19_deprecated_twin :
+  forall T, wf_table T = true ->
+  forall d d1 t : descr,
+    typecheck (t_schema T) d = inr d1 -> twin_of T d1 t -> res_sim T (verify T t) (verify T d).
+Proof. exact (fun T W => twin_verify T (wf_table_WF T W)). Qed.
+Print Assumptions C19_deprecated_twin.
+
+(* such twins exist for every d: the mapped description itself is one *)
+Theorem C19_deprecated_twin_exists :
+  forall T, wf_table T = true ->
+  forall d d1 : descr, typecheck (t_schema T) d = inr d1 -> twin_of T d1 (alias_pass T d1).
+Proof. exact (fun T W => alias_pass_is_twin T (wf_table_WF T W)). Qed.
+Print Assumptions C19_deprecated_twin_exists.
+
 (* the same, as the boolean clause the harness evaluates on implementation traces *)
 Theorem C19_alias_oracle :
   forall T, wf_table T = true ->
@@ -55,10 +77,11 @@ Print Assumptions C19_mode_requirements.
 
 (* ... and a description whose types are fine but which violates its mode's rule is rejected *)
 Theorem C19_mode_rejects :
-  forall T (d d1 : descr),
+  forall T, wf_table T = true ->
+  forall (d d1 : descr),
     typecheck (t_schema T) d = inr d1 -> rules_ok T (set_mode T d1) = false ->
     verify T d = inl ValueError.
-Proof. exact verify_mode_rejects. Qed.
+Proof. exact (fun T W => verify_mode_rejects T (wf_table_WF T W)). Qed.
 Print Assumptions C19_mode_rejects.
 
 (* verify loses nothing: every attribute that is neither a deprecated name, a replacement,
@@ -213,6 +236,12 @@ Example C19_nonvacuous :
              /\ verify td_table v = inr v /\ construct td_table (as_dict v) = v
   | inl _ => False
   end
+  /\ ok_twin td_table
+       (verify td_table (construct td_table [("executable"%string, VA (AStr "x")); ("cpu_processes"%string, VA (AInt 4))]))
+       (verify td_table (construct td_table [("executable"%string, VA (AStr "x")); ("ranks"%string, VA (AInt 4))])) = true
+  /\ getv "use_mpi"%string
+       (match verify td_table (construct td_table [("executable"%string, VA (AStr "x")); ("cpu_processes"%string, VA (AInt 4))])
+        with inr v => v | inl _ => [] end) = VA (ABool true)
   /\ verify td_table (construct td_table [("mode"%string, VA (AStr "task.function"))]) = inl ValueError
   /\ (exists o, slots_to_old [mkSlot true (Some 1) (RROs [(3, Some 4)]) (RROs []) 0 0 1 "n1"] = inr o
                 /\ placement o = [(1, "n1"%string, [3], [])] /\ slots_to_new o = inl ValueError).
